@@ -9,7 +9,7 @@ RF7b  locale partition: transitive write/read sets of setilocale / setflocale ov
 RF9   sibling agreement of the 16 __str{p,f}_{set,reset}_{long,abbr}_{wday,mon} functions.
 """
 import re
-from core import (AnalysisBroken, CallGraph, global_accesses, guards_of, norm_cond, strip, expr_text,
+from core import (kids, AnalysisBroken, CallGraph, global_accesses, guards_of, norm_cond, strip, expr_text,
                   call_args, kids, const_of, walk)
 
 ENV_FUNCS = set("""time gettimeofday clock_gettime clock ftime localtime localtime_r gmtime gmtime_r mktime
@@ -284,9 +284,31 @@ def check(P, R, tier):
         for x in sb.walk():
             if x.get("k") == "DeclRefExpr" and x.get("d") == gd and not any(strip(st["c"][0]) is x for st in stores):
                 bad.append(x)
+        inits = {}
+        for v in sb.walk():
+            if v.get("k") == "Var" and kids(v):
+                inits[v["d"]] = kids(v)[0]
+
+        def from_param(e, depth=0):
+            """every variable the expression reads is the parameter, or a local made from the parameter alone"""
+            for y in walk(e):
+                if y.get("k") != "DeclRefExpr":
+                    continue
+                if y.get("dk") == "parm":
+                    if y.get("d") != par:
+                        return y
+                elif y.get("dk") == "var":
+                    if y.get("d") not in inits or depth > 4:
+                        return y
+                    sub = from_param(inits[y["d"]], depth + 1)
+                    if sub is not None:
+                        return sub
+                elif y.get("dk") == "gvar":
+                    return y
+            return None
         for st in stores:
-            r = strip(st["c"][1])
-            if r is None or r.get("k") != "DeclRefExpr" or r.get("d") != par:
+            culprit = from_param(st["c"][1])
+            if culprit is not None:
                 bad.append(st)
         # what the parameter is reassigned from mentions only the parameter itself
         for x in sb.walk():
